@@ -120,6 +120,13 @@ class FileLock:
             except (IOError, OSError):
                 os.close(fd)
                 return False
+            except BaseException:
+                # Interrupted (KeyboardInterrupt / SystemExit) between taking the
+                # kernel lock and recording it: without closing the descriptor the
+                # lock would stay held by a leaked fd for the life of the process
+                # and nobody - this process included - could ever commit again.
+                os.close(fd)
+                raise
 
         # Fallback: O_CREAT|O_EXCL existence locking with stale-lock breaking.
         # Weaker than kernel locks (no automatic release on crash), but still
@@ -174,17 +181,24 @@ class FileLock:
                 except (IOError, OSError):
                     pass
             else:
-                if FCNTL_AVAILABLE:
-                    fcntl.flock(self._lock_fd, fcntl.LOCK_UN)
-                elif MSVCRT_AVAILABLE:
-                    msvcrt.locking(self._lock_fd, msvcrt.LK_UNLCK, 1)  # type: ignore[attr-defined]
-                os.close(self._lock_fd)
+                try:
+                    if FCNTL_AVAILABLE:
+                        fcntl.flock(self._lock_fd, fcntl.LOCK_UN)
+                    elif MSVCRT_AVAILABLE:
+                        msvcrt.locking(self._lock_fd, msvcrt.LK_UNLCK, 1)  # type: ignore[attr-defined]
+                finally:
+                    # Closing the descriptor drops the kernel lock too: a failed
+                    # explicit unlock must not leave the table locked until this
+                    # object happens to be garbage collected.
+                    os.close(self._lock_fd)
 
             self._lock_fd = None
             self._locked = False
         except Exception:
-            # Best effort cleanup
-            pass
+            # Best effort cleanup: the descriptor was closed above, so the lock
+            # is released even if the explicit unlock failed.
+            self._lock_fd = None
+            self._locked = False
 
     def __enter__(self) -> "FileLock":
         """Context manager entry."""
